@@ -238,7 +238,16 @@ pub fn hungarian_algorithm(
         .map(|(y, x)| adjacency_matrix[(*x, y)] as Score)
         .fold(Score::from(0u8), |acc, x| acc + x);
 
+    #[cfg(feature = "verif")]
+    LAST_RESULT.with(|l| *l.borrow_mut() = Some((m_match.to_vec(), score)));
+
     (m_match, score)
+}
+
+#[cfg(feature = "verif")]
+thread_local! {
+    /// (matching, score) returned by the last call of `hungarian_algorithm` on this thread
+    pub static LAST_RESULT: std::cell::RefCell<Option<(Vec<usize>, Score)>> = std::cell::RefCell::new(None);
 }
 
 // =============================================================================
